@@ -26,6 +26,9 @@ type chainWrite struct {
 	// Parent is set on the leaf chains generated for a whole-struct store:
 	// the chain of the struct location that was overwritten.
 	Parent []*types.Var
+	// Via is set when the write is performed by a callee through an argument
+	// that Fn derived from the chain.
+	Via *ssa.Function
 }
 
 func chainString(p *Prog, ch []*types.Var) string {
